@@ -59,6 +59,7 @@ TCommit ==
   /\ LoggedP(Ev.s)
 TDedup   == IsEvent("dedup") /\ Dedup /\ (Ev.res <=> wk.mid \in done)
 TTrusted == IsEvent("trusted") /\ DedupTrusted
+TDedupFault == IsEvent("dedupfault") /\ DedupFault
 TBloomReset == IsEvent("bloomreset") /\ BloomReset
 TExec    == /\ IsEvent("exec") /\ RunTaskExec
             /\ Cur.t = Ev.task /\ tk[Cur.t].prog = Ev.prog /\ st[Cur.s].jumps = Ev.jumps /\ st[Cur.s].sig = Ev.sig
@@ -84,7 +85,7 @@ TSwPush  == IsEvent("sweeppush") /\ SweepPush /\ LoggedP(Ev.s)
 TEarly   == IsEvent("early") /\ EarlyStart(Ev.stage) /\ LoggedP(Ev.s)
 
 TraceNext == TCommit \/ TDedup \/ TTrusted \/ TBloomReset \/ TExec \/ THRet \/ THRaise \/ THFail \/ TNoAck \/ TWarp \/ TExpire
-             \/ TSweep \/ TDlq \/ TCrash \/ TCancel \/ TEarly \/ TSignal \/ TClaimSweep \/ TPause \/ TUnpause \/ TRestart \/ TRegion \/ TSwSnap \/ TSwLook \/ TSwPush
+             \/ TSweep \/ TDlq \/ TCrash \/ TCancel \/ TEarly \/ TSignal \/ TClaimSweep \/ TPause \/ TUnpause \/ TRestart \/ TRegion \/ TSwSnap \/ TSwLook \/ TSwPush \/ TDedupFault
 
 TraceSpec == TraceInit /\ [][TraceNext]_tvars
 
